@@ -178,7 +178,12 @@ def check_loc(ctx, lang, key, w, normalize=True):
                  ("%Y/%B/%d %H:%M", "2013/%s/17 10:45" % w, datetime(2013, mi, 17, 10, 45)),
                  # two fields of the format side by side (clock time glued to AM/PM); two-digit year first
                  ("%d %B %Y %I:%M%p", "17 %s 2013 06:08PM" % w, datetime(2013, mi, 17, 18, 8)),
-                 ("%y %B %d", "31 %s 25" % w, datetime(2031, mi, 25))]
+                 ("%y %B %d", "31 %s 25" % w, datetime(2031, mi, 25)),
+                 ]
+        if not (w[0].isdigit() or w[-1].isdigit()):
+            # the name directly between two numeric fields, nothing in between (names that begin or end with a digit would
+            # run into the neighbouring number: 'thg 1' + '2013')
+            cases.append(("%d%B%Y", "17%s2013" % w, datetime(2013, mi, 17)))
     else:
         wi = vocab.WEEKDAYS.index(key)
         d = datetime(2013, 5, 13 + wi)  # 2013-05-13 is a Monday
